@@ -1300,9 +1300,14 @@ def fl_cases(ctx, r, lines, checks):
         rec_cycles = []
         orig = fcl._random_cycle
 
+        rc_calls = []
+
         def wrapped(adj, rs):
+            pos0 = len(rs.log)
+            order = [(v, list(adj[v])) for v in adj]          # dict order and set orders as iterated (unchanged during the call)
             cyc = orig(adj, rs)
             rec_cycles.append((None if cyc is None else list(cyc), len(rs.log)))
+            rc_calls.append((order, list(rs.log[pos0:]), None if cyc is None else list(cyc)))
             return cyc
         out = err = None
         try:
@@ -1316,6 +1321,18 @@ def fl_cases(ctx, r, lines, checks):
             err = e
         finally:
             fcl._random_cycle = orig
+        # the random walk itself: `_random_cycle` as coded vs Gen.randomCycle on the recorded iteration orders and draws
+        for order, draws, cyc in rc_calls[:ctx.scale(3, 12)]:
+            ctx.tick('fl:walk:' + ('dead-end' if cyc is None else f'cycle{min(len(cyc), 6)}'))
+            lines.append('rcyc ' + (';'.join(f"{lab(v)}>{','.join(lab(u) for u in ns) or '-'}" for v, ns in order) or '-') + ' ' + (','.join(str(d) for d in draws) or '-'))
+            checks.append(('generators.frustrated_loop (_random_cycle) vs Gen.randomCycle', 'random walk', 'none' if cyc is None else 'ok ' + ','.join(lab(v) for v in cyc),
+                           HDR + f'# _random_cycle on adj (iteration orders) {order!r} with draws {draws!r} returned {cyc!r}\n', False))
+            if cyc is not None:
+                nbrs = dict(order)
+                okc = (len(cyc) >= 3 and len(set(cyc)) == len(cyc) and all(cyc[(i + 1) % len(cyc)] in nbrs[cyc[i]] for i in range(len(cyc))))
+                if not okc:
+                    ctx.fail('property', 'generators.frustrated_loop', '_random_cycle: not a simple cycle of the graph', f'{call}: walk returned {cyc!r} on {order!r}',
+                             repro=HDR + f'import dimod.generators.fcl as fcl\n# {call}: _random_cycle returned {cyc!r}\nassert False\n')
         ctx.tick('fl' + (':plant' if plant else ':unplanted') + (':gauge' if gauge else '') + (':R' if R != float('inf') else '') + (':predicate' if short else '')
                  + (f':raises-{type(err).__name__}' if err else ''))
         ctx.case(('fl', call), nontrivial=out is not None, sample=dict(call=call))
